@@ -3,6 +3,7 @@
 package app
 
 import (
+	"sync"
 	"github.com/yandex/mysync/internal/app/optimization"
 	"testing/synctest"
 	"fmt"
@@ -325,7 +326,7 @@ func c01one(t *testing.T, out *verifh.Out, r *rand.Rand, dir string) {
 			"reset_replica_all", "set_writable", "is_readonly", "events", "ss_status"}
 		modes := []string{"err:1105", "err:1105", "hang", "lost:1105", "err:1205"}
 		fh, fo, fm := hosts[r.Intn(n)], ops[r.Intn(len(ops))], modes[r.Intn(len(modes))]
-		nth := 1 + r.Intn(2)
+		nth := r.Intn(3) // 0 = every time (retries do not help), 1 / 2 = that occurrence only
 		wd.AddFault(fh, fo, nth, fm)
 		fault = map[string]any{"host": fh, "op": fo, "mode": fm, "nth": nth}
 	case 1:
@@ -368,7 +369,24 @@ func c01one(t *testing.T, out *verifh.Out, r *rand.Rand, dir string) {
 	}
 	prevStmt := wd.OnStmt
 	promoSnap := false
-	wd.OnStmt = func(host, op, arg string) {
+	// the lag each frozen host reports when its position is read (the first status query after the first lock re-check):
+	// it can differ from the snapshot taken at the lock re-check when a call in between takes seconds
+	posLag := map[string]any{}
+	var posMu sync.Mutex
+	wd.OnStmt = func(host, op, arg string) { // runs on the server goroutines, several at a time
+		if op == "replica_status" && lockSeen >= 1 {
+			posMu.Lock()
+			if _, seen := posLag[host]; !seen {
+				if l, ok := wd.ReportedLagNow(host); ok {
+					if l != nil {
+						posLag[host] = *l
+					} else {
+						posLag[host] = nil
+					}
+				}
+			}
+			posMu.Unlock()
+		}
 		if op == "reset_replica_all" && !promoSnap {
 			promoSnap = true
 			snaps = append(snaps, c01Snap{At: "promote:" + host, Nodes: wd.Digest()})
@@ -457,7 +475,7 @@ func c01one(t *testing.T, out *verifh.Out, r *rand.Rand, dir string) {
 		"sw":     map[string]any{"from": sw.From, "to": sw.To, "cause_auto": sw.Cause == CauseAuto, "failover_type": sw.MasterTransition == FailoverTransition, "turbo": sw.MasterTransition == SwitchoverTransition && semi},
 		"fault":  fault, "evs": evl, "steps": steps, "snaps": snaps, "emerge": emerge, "err": errS, "panic": panicked,
 		"final":  wd.Digest(), "master_after": masterAfter, "switch_present": tree.Has("switch"), "recovery": tree.Snapshot("recovery"),
-		"late": late, "opt_registry_after": regAfter, "active_after": func() []string { var l []string; tree.GetJSON("active_nodes", &l); return l }()})
+		"late": late, "pos_lag": posLag, "opt_registry_after": regAfter, "active_after": func() []string { var l []string; tree.GetJSON("active_nodes", &l); return l }()})
 }
 
 func TestVerifC01(t *testing.T) {
